@@ -132,6 +132,48 @@ def model_values(cfg, particle, loss_obj):
     return [vals[n] for n in pnames] + [vals[s] for s in snames], bool(snames)
 
 
+CAT_NAME = {"sir": "SIR_norm", "lv": "Lotka_Volterra", "sircount": "SIR"}
+_SPEC_ODE = {}
+
+
+def reference_cost_fn(cfg, y):
+    """cost at a particle from the REFERENCE engine: trajectory of the specification's transcription of the model
+    (engine/catalogue.py through TLC) and the class's reference kernel -- independent of every PyGOM loss object"""
+    import shutil
+    from engine import catalogue, codec, refnum, tlc
+    from harness import oracle_model as om, replay_loss as rl
+    name = CAT_NAME[cfg["which"]]
+    entry = next(e for e in catalogue.models() if e["name"] == name)
+    sy = entry["defn"].sy
+    if name not in _SPEC_ODE:
+        d = tlc.scratch_dir("abcref_")
+        try:
+            odes = [{"kind": "ode", "st": p["st"], "eqn": p["eqn"]} for p in entry["defn"].procs]
+            outs, _ = om.run_tlc_oracle([entry["defn"].to_json(0, want=[], events=[], odes=odes)], d, "abc")
+            _SPEC_ODE[name] = [codec.P(t) for t in outs[0]["ode"]]
+        finally:
+            shutil.rmtree(d, ignore_errors=True)
+    polys = _SPEC_ODE[name]
+    oi = [sy.states.index(s) for s in cfg["obs"]]
+    cls = cfg["loss_type"].replace("Loss", "")
+    yy = np.asarray(y, float).reshape(len(cfg["t"]) - 1, -1)
+
+    def cost(named):
+        th = [float(named.get(nm, cfg["true"][nm])) for nm in sy.params]
+        x0 = [float(named.get(s, v)) for s, v in zip(sy.states, cfg["x0"])]
+        Y = refnum.solve(refnum.rhs_from_spec(sy, polys, th), x0, [float(v) for v in cfg["t"]])[1:][:, oi]
+        S = np.full(Y.shape, cfg["sigma"] if cfg["sigma"] is not None else 1.0)
+        with np.errstate(all="ignore"):
+            c = float(np.sum(rl.ref_cost(cls, yy, Y, 1.0, S)))
+            # conditioning: how much the cost moves when the trajectory moves by the integration error the code allows
+            # (1e-7 (1 + max|Y|)); a Poisson cost near a died-out trajectory is ill-conditioned and judged accordingly
+            dl = {"Square": 2.0 * np.abs(yy - Y), "Normal": np.abs(yy - Y) / S ** 2,
+                  "Poisson": np.abs(1.0 - yy / Y)}[cls]
+            slack = float(np.sum(dl)) * 1e-7 * (1.0 + float(np.max(np.abs(Y))))
+        return c, (slack if np.isfinite(slack) else np.inf)
+    return cost
+
+
 def perform_session(seed):
     rng = random.Random(seed)
     np.random.seed(rng.randrange(1, 2 ** 31 - 1))
@@ -154,6 +196,14 @@ def perform_session(seed):
         if has_state:
             return float(fresh.costIV(vals))
         return float(fresh.cost(vals))
+
+    refcost = reference_cost_fn(cfg, y)
+
+    def reference(particle):
+        named = {}
+        for p, v in zip(cfg["table"], particle):
+            named[p["name"]] = 10.0 ** float(v) if p["logscale"] else float(v)
+        return refcost(named)
 
     abc = pgabc.ABC(obj, params)
     rec = []                       # raw events
@@ -207,7 +257,7 @@ def perform_session(seed):
     finally:
         pgabc.ABC._perform_generation = orig
     return {"cfg": {k: (v if not isinstance(v, np.ndarray) else v.tolist()) for k, v in cfg.items()}, "rec": rec,
-            "error": err, "recompute": recompute, "calls": calls}
+            "error": err, "recompute": recompute, "reference": reference, "calls": calls}
 
 
 def to_trace(sess):
@@ -231,11 +281,23 @@ def to_trace(sess):
     def judge(particle, stored, w):
         prior = all(prior_positive(p, x) for p, x in zip(cfg["table"], particle))
         try:
+            slack0 = sess["reference"](particle)[1]
+        except Exception:
+            slack0 = 0.0
+        try:
             rc = recompute(particle)
-            ok = abs(rc - stored) <= 1e-9 * (abs(stored) + abs(rc)) + 1e-14
+            ok = abs(rc - stored) <= 1e-9 * (abs(stored) + abs(rc)) + 1e-14 + slack0
         except Exception:
             rc, ok = None, False
-        return prior, ("ok" if (np.isfinite(w) and w > 0) else "bad"), ("ok" if ok else "bad"), rc
+        # ... and the reference engine must give the same cost (a stored distance that no independent evaluation
+        # reproduces -- e.g. an undefined loss silently turned into a number -- is not "the cost at that particle")
+        try:
+            rf, slack = sess["reference"](particle)
+            ok = ok and np.isfinite(rf) and abs(rf - stored) <= 1e-5 * (abs(stored) + abs(rf)) + 1e-8 + slack
+        except Exception:
+            rf = None
+            ok = False
+        return prior, ("ok" if (np.isfinite(w) and w > 0) else "bad"), ("ok" if ok else "bad"), [rc, rf]
 
     events, detail = [], []
     G_of_call = [cfg["G"], 2]
